@@ -36,6 +36,46 @@ def _f(x):
     return float(Fraction(x))
 
 
+class LabelMap:
+    """candidate LABELS of any dtype <-> the integer ids of the table model.  A SubsetProblem's candidate set is an
+    arbitrary 1-D array: with `"labels"` in the table the problem object carries those (non-integral, unsorted,
+    negative) float labels, the Lean table model keeps the integer ids `space`; the map is injective, a value that
+    is no label gets a fresh id outside the space (the same id for the same value)"""
+
+    def __init__(self, labels, ids):
+        self.labels = [float(Fraction(v)) for v in labels]
+        self.ids = [int(v) for v in ids]
+        self.known = dict(zip(self.labels, self.ids))
+        assert len(self.known) == len(self.ids)
+        self.back = dict(zip(self.ids, self.labels))
+        self.unknown = {}
+
+    def id_of(self, v):
+        try:
+            key = float(v)
+        except Exception:
+            key = repr(v)
+        if key in self.known:
+            return self.known[key]
+        if key != key:
+            key = "nan"
+        return self.unknown.setdefault(key, 10 ** 6 + len(self.unknown))
+
+    def to_labels(self, ids):
+        return [self.back[int(e)] for e in ids]
+
+
+_CUR = {"labmap": None}        # label map of the problem object the running case is working on
+
+
+def _ids(a, lm=False):
+    """candidate labels -> the integer ids of the table model (identity for integer-labelled problems)"""
+    lm = _CUR["labmap"] if lm is False else lm
+    if lm is None:
+        return [int(v) for v in numpy.asarray(a).ravel()]
+    return [lm.id_of(v) for v in numpy.asarray(a).ravel()]
+
+
 def _mods():
     if _CACHE:
         return _CACHE
@@ -64,6 +104,10 @@ def _mods():
             self.t = t
             space = [int(v) for v in t["space"]]
             self._pos = {v: i for i, v in enumerate(space)}
+            self.labmap = LabelMap(t["labels"], space) if t.get("labels") else None
+            if self.labmap is not None:
+                self._pos = {v: i for i, v in enumerate(self.labmap.labels)}
+            lab = self.labmap.labels if self.labmap is not None else space
             self._lin = numpy.array([[_f(v) for v in r] for r in t["lin"]], dtype=float).reshape(len(space), -1)
             self._quad = numpy.array([[_f(v) for v in r] for r in t["quad"]], dtype=float) if t.get("quad") else None
             self._posw = numpy.array([_f(v) for v in t["posw"]], dtype=float) if t.get("posw") else None
@@ -75,16 +119,16 @@ def _mods():
             self.log = None
             k = int(t["k"])
             super().__init__(
-                ndecn=k, decn_space=numpy.array(space, dtype=int),
+                ndecn=k, decn_space=numpy.array(lab, dtype=float if self.labmap is not None else int),
                 # both bounds are documented Optional: "bounds" = "none" | "no_lower" | "no_upper" leaves them out
-                decn_space_lower=None if t.get("bounds") in ("none", "no_lower") else numpy.repeat(min(space), k),
-                decn_space_upper=None if t.get("bounds") in ("none", "no_upper") else numpy.repeat(max(space), k),
+                decn_space_lower=None if t.get("bounds") in ("none", "no_lower") else numpy.repeat(min(lab), k),
+                decn_space_upper=None if t.get("bounds") in ("none", "no_upper") else numpy.repeat(max(lab), k),
                 nobj=len(t["obj_wt"]), obj_wt=numpy.array([_f(v) for v in t["obj_wt"]]),
                 nineqcv=len(self._ineq), ineqcv_wt=numpy.array([_f(v) for v in t.get("ineq_wt", [])]),
                 neqcv=len(self._eq), eqcv_wt=numpy.array([_f(v) for v in t.get("eq_wt", [])]),
                 **({"elementwise": False} if t.get("elementwise") is False else {}))
             # rarely used array forms of the candidate set: a non-contiguous view, narrow integer dtypes, read-only
-            form = t.get("space_form")
+            form = t.get("space_form") if self.labmap is None else None
             if form == "strided":
                 big = numpy.zeros(2 * len(space), dtype=int)
                 big[::2] = space
@@ -98,8 +142,8 @@ def _mods():
 
         def evalfn(self, x, *args, **kwargs):
             if self.log is not None:
-                self.log.append([int(v) for v in x])
-            ix = [self._pos[int(v)] for v in x]
+                self.log.append(_ids(x, self.labmap))
+            ix = [self._pos[int(v)] for v in x] if self.labmap is None else [self._pos[float(v)] for v in x]
             rows = self._lin[ix]
             scale = 1.0 / len(ix) if self._mean else 1.0
             obj = scale * rows.sum(0)
@@ -266,7 +310,7 @@ def _recording(addon, rec, script=None, cap=6):
 
         def note():
             for row in out:
-                keep(rec["sampling"], {"space": _ints(self._setspace), "k": int(problem.n_var), "row": _ints(row),
+                keep(rec["sampling"], {"space": _ids(self._setspace), "k": int(problem.n_var), "row": _ids(row),
                                        "replace": bool(self._replace)})
         guarded("sampling", note)
         return out
@@ -280,7 +324,7 @@ def _recording(addon, rec, script=None, cap=6):
             draws = rp.log[n0:]
             di = 0
             for i in range(Xin.shape[1]):
-                a, b = _ints(Xin[0, i]), _ints(Xin[1, i])
+                a, b = _ids(Xin[0, i]), _ids(Xin[1, i])
                 clen = min(sum(1 for v in a if v not in b), sum(1 for v in b if v not in a))
                 nex = None
                 if di < len(draws) and draws[di][0] == "randint":
@@ -291,7 +335,7 @@ def _recording(addon, rec, script=None, cap=6):
                     mex = _ints(draws[di][1])
                     di += 1
                 keep(rec["crossover"], {"a": a, "b": b, "clen": clen, "nex": nex, "mex": mex,
-                                        "c1": _ints(out[0, i]), "c2": _ints(out[1, i])})
+                                        "c1": _ids(out[0, i]), "c2": _ids(out[1, i])})
         guarded("crossover", note)
         return out
 
@@ -302,17 +346,17 @@ def _recording(addon, rec, script=None, cap=6):
 
         def note():
             draws = rp.log[n0:]
-            space = _ints(self._setspace)
+            space = _ids(self._setspace)
             for i in range(Xin.shape[0]):
-                x = _ints(Xin[i])
+                x = _ids(Xin[i])
                 bp = [v for v in space if v not in x]
                 mask = []
                 if 2 * i < len(draws) and numpy.size(draws[2 * i][1]):
                     pv = min(0.5, 1.0 / max(1, len(x)))
                     mask = [bool(u < pv) for u in numpy.asarray(draws[2 * i][1]).ravel()]
-                ch = _ints(draws[2 * i + 1][1]) if 2 * i + 1 < len(draws) else []
+                ch = _ids(draws[2 * i + 1][1]) if 2 * i + 1 < len(draws) else []
                 keep(rec["mutation"], {"space": space, "x": x, "mask": mask,
-                                       "choice": [bp.index(v) for v in ch if v in bp], "out": _ints(out[i])})
+                                       "choice": [bp.index(v) for v in ch if v in bp], "out": _ids(out[i])})
         guarded("mutation", note)
         return out
 
@@ -323,8 +367,8 @@ def _recording(addon, rec, script=None, cap=6):
 
         def note():
             locus = int(rp.log[n0][1]) if len(rp.log) > n0 else None
-            keep(rec["neighbors"], {"space": _ints(self.setspace), "x": _ints(x0), "locus": locus,
-                                    "rows": [_ints(r) for r in pop.get("X")] if len(pop) else []})
+            keep(rec["neighbors"], {"space": _ids(self.setspace), "x": _ids(x0), "locus": locus,
+                                    "rows": [_ids(r) for r in pop.get("X")] if len(pop) else []})
         guarded("neighbors", note)
         return pop
 
@@ -343,9 +387,9 @@ def _recording(addon, rec, script=None, cap=6):
             del tiles[:]
             out = hc(self, problem, x, *a, **kw)
             guarded("mutator", lambda: keep(rec["mutator"], {
-                "space": _ints(self.setspace), "x": _ints(x0),
+                "space": _ids(self.setspace), "x": _ids(x0),
                 "lociix": list(tiles[0]) if len(tiles) > 0 else None,
-                "alleleix": list(tiles[1]) if len(tiles) > 1 else None, "out": _ints(out)}))
+                "alleleix": list(tiles[1]) if len(tiles) > 1 else None, "out": _ids(out)}))
             return out
         return w
 
@@ -354,7 +398,7 @@ def _recording(addon, rec, script=None, cap=6):
     def w_st(self, problem, x, *a, **kw):
         x0 = numpy.array(x, copy=True)
         out = st_hc(self, problem, x, *a, **kw)
-        guarded("stochastic", lambda: keep(rec["stochastic"], {"space": _ints(self.setspace), "x": _ints(x0), "out": _ints(out)}))
+        guarded("stochastic", lambda: keep(rec["stochastic"], {"space": _ids(self.setspace), "x": _ids(x0), "out": _ids(out)}))
         return out
 
     with contextlib.ExitStack() as st:
@@ -400,7 +444,14 @@ def _solution_obs(prob, soln, kind):
             except Exception as e:          # a decision outside the candidate set cannot be evaluated
                 fresh.append({"obj": [], "ineqcv": [], "eqcv": [], "error": f"{type(e).__name__}: {e}"[:120]})
     dec_enc = [[int(v) for v in r] for r in decn] if dtype in ("bool", "int") else canon.enc(decn)
-    return {"nsoln": int(soln.nsoln), "dtype": dtype, "decn": dec_enc, "obj": canon.enc(soln.soln_obj),
+    lm = getattr(prob, "labmap", None)
+    extra = {}
+    if lm is not None and decn.ndim == 2:
+        # float-labelled candidate set: the exact returned values go to the Lean Spec (`decn_raw`, membership by value);
+        # every other request works on the ids of the table model
+        extra["decn_raw"] = canon.enc(decn.astype(float)) if dtype in ("bool", "int", "float") else None
+        dec_enc = [_ids(r, lm) for r in decn]
+    return {**extra, "nsoln": int(soln.nsoln), "dtype": dtype, "decn": dec_enc, "obj": canon.enc(soln.soln_obj),
             "ineqcv": canon.enc(soln.soln_ineqcv), "eqcv": canon.enc(soln.soln_eqcv), "fresh": fresh,
             "class": type(soln).__name__}
 
@@ -434,7 +485,11 @@ class C06(Prop):
             "Solution judged at its return and again at the end of the history; operator-level cases with scripted draws (repeated "
             "exchange positions, identical parents, n = k, negative integer bounds).  Non-trivial = n > k and the returned decision "
             "differs from the first k candidates, a history with at least two solutions, or an operator case that changes at least "
-            "one chromosome")
+            "one chromosome.  Round 5: (a) re-entry climbs - random pairwise-interaction problems selected (by a reference "
+            "climb, never used to judge) so that the real climb brings back a member an earlier exchange removed, from the sorted "
+            "start and from scripted starts; (b) candidate sets LABELLED with floats (distinct quarters in (-3, 20), unsorted, "
+            "negative and integral ones mixed in; also all-integral float labels, and labels 2^-36 apart) for the sorting optimiser, both climbers, all ten "
+            "subset evolutionary classes and histories with a re-assigned candidate set")
     TRUSTED = [
         "pymoo's evolutionary loop (selection, survival, duplicate elimination, termination) is not modelled: feasibility "
         "is proved for an arbitrary re-selection between operator applications; truthfulness is proved for the Solution assembled "
@@ -448,6 +503,11 @@ class C06(Prop):
         "pymoo's cross_sbx ends with repair_clamp and mut_pm with set_to_bounds_if_outside (pymoo 0.6.2 sources, read): the "
         "integer-operator theorem covers every value the real-coded arithmetic can produce before that clamp; the in-bounds "
         "output is re-checked on every recorded call",
+        "float-labelled candidate sets: the table model and every functional-correspondence op work on integer ids; the harness "
+        "maps label <-> id injectively (LabelMap; a value that is no label gets a fresh id outside the space) - justified by "
+        "`feasible_relabel`.  The feasibility clause itself is evaluated in Lean on the returned VALUES against the rational "
+        "labels (`c06.spec_solution` with `labels`: feasibleB at Rat), truthfulness by the problem's own fresh evaluation at "
+        "the returned array (a value that is no label cannot be evaluated = not truthful)",
     ]
     ASSUMPTIONS = ["objective / constraint tables are integers or dyadic rationals, so numpy's float arithmetic is exact "
                    "(mean aggregation: within 1e-9 relative)",
@@ -456,6 +516,8 @@ class C06(Prop):
                    "local optimality is judged with the violation of the problem formulation G <= 0, H = 0: "
                    "(sum max(0,g) + sum |h|, sum obj), which since the repair of D41 is the climbers' own key for signed and "
                    "penalty-style constraint functions alike",
+                   "for a candidate set with labels of a non-integer dtype the returned decision is judged by VALUE (k distinct "
+                   "values, each equal to a label); no dtype is demanded of it (integer-labelled sets: integer dtype, as before)",
                    "equality constraints of the evolutionary runs have integer data, so |H| is 0 or >= 1/2 and pymoo's "
                    "feasibility tolerance (1e-4) cannot make a member with H != 0 count as feasible"]
 
@@ -502,6 +564,8 @@ class C06(Prop):
             t["mean"] = False           # keep every float operation exact on the extreme magnitudes
         if rng.random() < 0.1:
             t["space_form"] = rng.choice(["strided", "int32", "int8", "readonly"])
+        elif rng.random() < 0.12:
+            t["labels"] = C06._labels(rng, n)      # float-labelled candidate set (non-integral, unsorted, some negative)
         cons = cons if cons is not None else rng.choice(["none", "none", "ineq", "ineq", "eq", "both", "tight"])
         if cons in ("ineq", "both", "tight"):
             t["ineq"], t["ineq_wt"] = [], []
@@ -563,6 +627,93 @@ class C06(Prop):
             soln[i], wrk[j] = wrk[j], soln[i]
             moves += 1
         return moves
+
+    @staticmethod
+    def _labels(rng, n):
+        """candidate labels of a non-integer dtype: n distinct quarters in (-3, 20), unsorted, some negative, some integral,
+        at least two non-integral (a cast to an integer type leaves the candidate set or collides); a quarter of the time
+        finely spaced labels instead"""
+        if rng.random() < 0.25:
+            # finely spaced labels (2^-36 apart, around 1, 1000 or -3): distinct floats that any tolerance, rounding to a few
+            # decimals or a narrower float type identifies with each other
+            base = rng.choice([1, 1000, -3])
+            return canon.enc([base + Fraction(j, 2 ** 36) for j in rng.sample(range(0, 64), n)])
+        while True:
+            lab = [Fraction(v, 4) for v in rng.sample(range(-12, 80), n)]
+            if sum(1 for v in lab if v.denominator != 1) >= min(2, n):
+                return canon.enc(lab)
+
+    @staticmethod
+    def _ref_trace(n, k, lin, q, start):
+        """exchanges (member out, candidate in) of the steepest-descent climb from `start` (positions) on the
+        unconstrained integer problem Σ lin + Σ_{a<b} q; reference re-implementation used only to SELECT cases"""
+        soln = list(start)
+        wrk = [e for e in range(n) if e not in soln]
+
+        def score(x):
+            return sum(lin[i] for i in x) + sum(q[x[a]][x[b]] for a in range(len(x)) for b in range(a + 1, len(x)))
+        cur = score(soln)
+        trace = []
+        while len(trace) < 100:
+            best = None
+            for i in range(k):
+                for j in range(len(wrk)):
+                    soln[i], wrk[j] = wrk[j], soln[i]
+                    sc = score(soln)
+                    if sc < (best[0] if best else cur):
+                        best = (sc, i, j)
+                    soln[i], wrk[j] = wrk[j], soln[i]
+            if best is None:
+                break
+            cur, i, j = best
+            trace.append((soln[i], wrk[j]))
+            soln[i], wrk[j] = wrk[j], soln[i]
+        return trace
+
+    def _reentry(self, rng, mode=None):
+        """NON-separable problem on which the climb brings a member back that an earlier exchange removed (pairwise
+        terms: an element that was inferior in one context is the best insertion in a later one).  A climber that
+        never proposes removed elements again (tabu list, 'retired' mask, a working set that shrinks) scans an
+        incomplete neighbourhood from then on.  mode: "sorted" (SortingSteepestDescent..., start = k smallest single
+        keys), "scripted" (SteepestDescent..., scripted start), "old" (UnconstrainedSteepestAscent..., seeded start)"""
+        mode = mode or rng.choice(["sorted", "scripted", "old"])
+        for _ in range(600):
+            n = rng.choice([7, 8, 9, 10, 11])
+            k = rng.choice([2, 3, 3, 4, 5])
+            space = rng.sample(range(-9, 60), n)
+            lin = rng.sample(range(-6, 7), n) if mode == "sorted" else [rng.randint(-2, 2) for _ in range(n)]
+            q = [[0] * n for _ in range(n)]
+            for a in range(n):
+                for b in range(a + 1, n):
+                    q[a][b] = q[b][a] = rng.randint(-15, 15)
+            seed = rng.randrange(10 ** 6)
+            if mode == "sorted":
+                start = sorted(range(n), key=lambda e: lin[e])[:k]
+            elif mode == "old":
+                drawn = numpy.random.default_rng(seed).choice(numpy.array(space, dtype=int), (k,), replace=False)
+                start = [space.index(int(e)) for e in drawn]
+            else:
+                start = rng.sample(range(n), k)
+            tr = self._ref_trace(n, k, lin, q, start)
+            gone = set()
+            back = False
+            for o, i in tr:
+                back = back or i in gone
+                gone.add(o)
+            if back:
+                break
+        t = {"space": space, "k": k, "lin": [[v] for v in lin], "mean": False, "obj_wt": [1], "quad": q}
+        if mode == "old":
+            # maximises the weighted score: weight -1 turns it into the minimisation the reference climb follows
+            return {"kind": "old_hillclimb", "prob": dict(t, obj_wt=[-1]), "seed": seed}
+        if rng.random() < 0.15:
+            t["labels"] = self._labels(rng, n)
+        if mode == "sorted":
+            return {"kind": "sorting_hillclimb", "prob": t}
+        init = [space[e] for e in start]
+        dup = list(init)
+        dup[-1] = dup[0]
+        return {"kind": "hillclimb", "prob": t, "gen": "scripted", "init": init, "dup": dup}
 
     @staticmethod
     def _position_dependent(rng):
@@ -705,6 +856,15 @@ class C06(Prop):
                           [50, 50, 50, 0, 50, 50, -35, 50], [50, -25, 50, 50, 0, 50, -30, 50], [-5, 50, 50, 50, 50, 0, 50, 50],
                           [50, 50, 50, -35, -30, 50, 0, 50], [50, -20, -15, 50, 50, 50, 50, 0]]}
         small = {"space": [5, 3, 9, 1], "k": 3, "lin": [[0, 0], [2, 3], [4, 2], [1, 1]], "mean": False, "obj_wt": [1, 1]}
+        reent = {"space": [0, 1, 2, 3, 4, 5, 6, 7, 8], "k": 3, "mean": False, "obj_wt": [1],
+                 "lin": [[3], [-1], [3], [1], [-4], [0], [-1], [1], [1]],
+                 "quad": [[0, -1, 7, -1, -6, 1, 1, -5, 1], [-1, 0, -2, -5, 8, 5, -5, -8, 0], [7, -2, 0, 0, -10, 4, 2, -9, -4],
+                          [-1, -5, 0, 0, -6, -1, 3, -2, 7], [-6, 8, -10, -6, 0, 6, 1, 2, -2], [1, 5, 4, -1, 6, 0, -1, 5, 3],
+                          [1, -5, 2, 3, 1, -1, 0, 5, -3], [-5, -8, -9, -2, 2, 5, 5, 0, 5], [1, 0, -4, 7, -2, 3, -3, 5, 0]]}
+        flab = ["7/4", "-1/2", 3, "17/4", "11/2", "-9/4"]                  # labels of the 6 candidates of sep / con / mo
+        fnear = ["68719476741/68719476736", "68719476753/68719476736", 1, "68719476739/68719476736", "68719476767/68719476736",
+                 "68719476737/68719476736"]                                 # 1 + {5, 17, 0, 3, 31, 1} * 2^-36
+        flab9 = ["1/2", "7/4", 3, "17/4", "11/2", "27/4", 8, "-5/4", "-5/2"]
         return [
             {"kind": "sorting", "prob": sep},
             {"kind": "sorting", "prob": tie},
@@ -884,6 +1044,36 @@ class C06(Prop):
              "prob": {"space": [10, 11, 12, 13, 14, 15], "k": 2, "mean": False, "obj_wt": [1], "lin": [[-4], [-3], [-2], [-5], [4], [-3]],
                       "ineq": [{"cost": [4, 3, 0, 3, 3, 0], "budget": 4, "signed": True}, {"cost": [0, 1, 0, 2, 2, 3], "budget": 3, "signed": True}],
                       "ineq_wt": [1, 2], "eq": [{"vec": [1, 0, 1, 0, 1, 0], "target": 1, "signed": True}], "eq_wt": [1]}},
+            # ---- round 5 -------------------------------------------------------------------------------------
+            # (a) a climb that brings back a member removed by an earlier exchange (pairwise terms): 9 candidates, k = 3,
+            #     sorted start {4, 1, 6}; the climb ends at {7, 4, 2} after re-inserting a member it had exchanged out
+            {"kind": "sorting_hillclimb", "prob": reent},
+            {"kind": "hillclimb", "gen": "scripted", "init": [4, 1, 6], "dup": [4, 4, 6], "prob": reent},
+            {"kind": "sorting_hillclimb", "prob": dict(reent, labels=flab9)},
+            {"kind": "old_hillclimb", "seed": 267290,
+             "prob": {"space": [12, 4, 40, 27, 49, 53, 25], "k": 4, "lin": [[1], [-1], [1], [0], [0], [-2], [2]], "mean": False, "obj_wt": [-1],
+                      "quad": [[0, -5, -5, 14, -9, 9, -7], [-5, 0, -4, 9, 8, 6, 0], [-5, -4, 0, 8, 9, 9, 5], [14, 9, 8, 0, 1, -3, 1],
+                               [-9, 8, 9, 1, 0, 2, -3], [9, 6, 9, -3, 2, 0, 12], [-7, 0, 5, 1, -3, 12, 0]]}},
+            # (b) candidate sets labelled with non-integral floats (a SubsetProblem's decn_space is any 1-D array): every
+            #     subset optimiser family; the returned VALUES must be k distinct labels, evaluated afresh by the problem
+            {"kind": "sorting", "prob": dict(sep, labels=flab)},
+            {"kind": "hillclimb", "prob": dict(con, labels=flab), "gen": "real", "seed": 51},
+            {"kind": "hillclimb", "prob": dict(con, labels=flab), "gen": "scripted", "init": [19, 12, 11], "dup": [19, 19, 12]},
+            {"kind": "sorting_hillclimb", "prob": dict(con, labels=flab)},
+            {"kind": "ga", "algo": "SubsetGeneticAlgorithm", "prob": dict(con, labels=flab), "ngen": 3, "pop_size": 6, "seed": 52},
+            {"kind": "ga", "algo": "NSGA2SubsetGeneticAlgorithm", "prob": dict(mo, labels=flab), "ngen": 3, "pop_size": 6, "seed": 53},
+            {"kind": "ga", "algo": "NSGA3SubsetGeneticAlgorithm", "prob": dict(mo, labels=flab), "ngen": 3, "pop_size": 6, "seed": 54, "nrefpts": 4},
+            {"kind": "ga", "algo": "NSGA3SubsetGeneticAlgorithm", "prob": dict(mo, labels=[3, 7, 1, 12, 5, 9]), "ngen": 2, "pop_size": 6, "seed": 55, "nrefpts": 4},
+            {"kind": "ga", "algo": "NSGA2SteepestDescentSubsetGeneticAlgorithm", "prob": dict(mo, labels=flab), "ngen": 2, "pop_size": 6, "seed": 56, "phc": 1.0},
+            {"kind": "ga", "algo": "NSGA2StochasticDescentSubsetGeneticAlgorithm", "prob": dict(mo, labels=flab), "ngen": 2, "pop_size": 6, "seed": 57, "phc": 1.0, "nhcstep": 2},
+            {"kind": "ga", "algo": "NSGA2MutatorASubsetGeneticAlgorithm", "prob": dict(mo, labels=flab), "ngen": 2, "pop_size": 6, "seed": 58, "phc": 1.0, "nhcstep": None},
+            {"kind": "ga", "algo": "NSGA2MutatorBSubsetGeneticAlgorithm", "prob": dict(mo, labels=flab), "ngen": 2, "pop_size": 6, "seed": 59, "phc": 1.0, "nhcstep": 2},
+            {"kind": "ga", "algo": "NSGA2SubsetGeneticAlgorithm", "prob": dict(mo, labels=fnear), "ngen": 3, "pop_size": 6, "seed": 60},
+            {"kind": "ga", "algo": "SubsetGeneticAlgorithm", "prob": dict(con, labels=fnear), "ngen": 3, "pop_size": 6, "seed": 61},
+            {"kind": "sorting_hillclimb", "prob": dict(con, labels=fnear)},
+            {"kind": "history", "prob": dict(sep, labels=flab), "seed": 8, "steps": [
+                {"op": "min", "algo": "sorting"}, {"op": "min", "algo": "hillclimb", "seed": 5}, {"op": "set_space", "keep": [5, 0, 2, 4]},
+                {"op": "min", "algo": "sorting_hillclimb"}, {"op": "min", "algo": "SubsetGeneticAlgorithm", "seed": 8, "ngen": 2, "pop_size": 6}]},
             {"kind": "op_crossover", "a": [1, 2, 3, 4], "b": [3, 5, 1, 6], "nex": 1, "mex": [1]},
             {"kind": "op_crossover", "a": [1, 2, 3, 4], "b": [8, 5, 7, 6], "nex": 3, "mex": [2, 0, 2]},
             {"kind": "op_crossover", "a": [1, 2, 3], "b": [3, 1, 2], "nex": None, "mex": []},
@@ -1073,6 +1263,8 @@ class C06(Prop):
                 if rng.random() < 0.15:
                     c["miscout"] = True
                 out.append(c)
+            elif r < 0.41:
+                out.append(self._reentry(rng))
             elif r < 0.67:
                 out.append(self._ga_case(rng))
             elif r < 0.71:
@@ -1081,6 +1273,7 @@ class C06(Prop):
                 t = self._table(rng, nobj=rng.choice([1, 1, 2]), cons="none", mean=False,
                                 mag=rng.choice([None, None, "offset", "tiny"]))
                 t.pop("posw", None)
+                t.pop("labels", None)
                 out.append({"kind": "old_hillclimb", "prob": t, "seed": rng.randrange(10 ** 6)})
             elif r < 0.85:
                 n_ = rng.randint(1, 7)
@@ -1200,8 +1393,10 @@ class C06(Prop):
         m = _mods()
         kind = case["kind"]
         addon = m["addon"]
+        _CUR["labmap"] = None
         if kind in ("sorting", "hillclimb", "sorting_hillclimb"):
             prob = m["TableSubsetProblem"](case["prob"])
+            lm = _CUR["labmap"] = prob.labmap
             snap = _snapshot(prob)
             extra = {}
             if kind == "sorting":
@@ -1210,16 +1405,18 @@ class C06(Prop):
                 algo = m["algmods"]["SortingSteepestDescentSubsetHillClimber"].SortingSteepestDescentSubsetHillClimber(
                     rng=numpy.random.default_rng(0))
             else:
-                space = numpy.array(case["prob"]["space"], dtype=int)
+                space = numpy.array(prob.decn_space, copy=True)
                 if case["gen"] == "real":
                     # Generator or (rarely used) legacy RandomState: both are accepted by the constructor
                     mk = numpy.random.RandomState if case.get("rngkind") == "RandomState" else numpy.random.default_rng
                     gen = mk(case["seed"])
                     # the start subset the algorithm will draw, replayed on a clone of the generator
                     clone = mk(case["seed"])
-                    extra["init"] = _ints(clone.choice(space, int(case["prob"]["k"]), replace=False))
+                    extra["init"] = _ids(clone.choice(space, int(case["prob"]["k"]), replace=False))
                 else:
-                    gen = m["ScriptedGenerator"](case["init"], case["dup"])
+                    # scripted start subsets are written in ids; the generator hands out the candidates' labels
+                    gen = m["ScriptedGenerator"](*((case["init"], case["dup"]) if lm is None else
+                                                   (lm.to_labels(case["init"]), lm.to_labels(case["dup"]))))
                 algo = m["algmods"]["SteepestDescentSubsetHillClimber"].SteepestDescentSubsetHillClimber(rng=gen)
             if kind == "sorting_hillclimb":
                 prob.log = []
@@ -1323,6 +1520,7 @@ class C06(Prop):
         else:
             vkind = "subset"
             prob = m["TableSubsetProblem"](case["prob"])
+            _CUR["labmap"] = prob.labmap
         kw = {"ngen": case["ngen"], "pop_size": case["pop_size"]}
         if "phc" in case:
             kw["phc"] = case["phc"]
@@ -1354,6 +1552,9 @@ class C06(Prop):
                     return [[int(e) for e in r] for r in v] if v.dtype == bool or numpy.issubdtype(v.dtype, numpy.integer) else canon.enc(v)
                 try:
                     X = rows(res.X, 1)
+                    if _CUR["labmap"] is not None:      # candidate labels -> ids of the table model
+                        xa = numpy.array(res.X, copy=True)
+                        X = [_ids(r) for r in (xa.reshape(1, -1) if xa.ndim == 1 else xa)]
                     rec["res"] = {"X": X, "F": rows(res.F, len(X)), "G": rows(res.G, len(X)), "H": rows(res.H, len(X))}
                 except Exception as e:
                     rec.setdefault("recorder_errors", []).append(f"res: {type(e).__name__}: {e}"[:200])
@@ -1390,6 +1591,8 @@ class C06(Prop):
         q = dict(t)
         q["space"] = [t["space"][i] for i in keep]
         q["lin"] = [t["lin"][i] for i in keep]
+        if t.get("labels"):
+            q["labels"] = [t["labels"][i] for i in keep]
         if t.get("quad"):
             q["quad"] = [[t["quad"][i][j] for j in keep] for i in keep]
         for key, f in (("ineq", "cost"), ("eq", "vec")):
@@ -1417,6 +1620,7 @@ class C06(Prop):
             return m["TableSubsetProblem"](t) if vkind == "subset" else m["make_vector_problem"](vkind, t)
         cur = dict(case["prob"])
         prob = build(cur)
+        _CUR["labmap"] = getattr(prob, "labmap", None)
         algos = {}
         steps_obs = []
         solns = []
@@ -1434,7 +1638,11 @@ class C06(Prop):
                     prob.ineqcv_wt = numpy.array([_f(v) for v in st["ineq_wt"]])
                 elif op == "set_space":
                     cur = self._restrict_table(cur, st["keep"])
-                    prob.decn_space = numpy.array(cur["space"], dtype=int)
+                    if cur.get("labels"):
+                        prob.labmap = _CUR["labmap"] = LabelMap(cur["labels"], cur["space"])
+                        prob.decn_space = numpy.array(prob.labmap.labels, dtype=float)
+                    else:
+                        prob.decn_space = numpy.array(cur["space"], dtype=int)
                 elif op == "set_bounds":
                     cur = dict(cur, lower=list(st["lower"]), upper=list(st["upper"]))
                     dt = float if vkind == "real" else int
@@ -1449,6 +1657,7 @@ class C06(Prop):
                     snap = None
                     gc.collect()
                     prob = build(cur)
+                    _CUR["labmap"] = getattr(prob, "labmap", None)
                 elif op == "poke":
                     if solns and solns[-1][0] is not None:
                         sol = solns[-1][0]
@@ -1521,7 +1730,7 @@ class C06(Prop):
         import importlib
         mod = importlib.import_module("pybrops.opt.algo.UnconstrainedSteepestAscentSetHillClimber")
         t = case["prob"]
-        prob = m["TableSubsetProblem"](dict(t, obj_wt=[1] * len(t["obj_wt"])))
+        prob = m["TableSubsetProblem"](dict(t, obj_wt=[1] * len(t["obj_wt"]), labels=None))
         wt = numpy.array([_f(v) for v in t["obj_wt"]])
         sspace = numpy.array(t["space"], dtype=int)
         s0 = sspace.copy()
@@ -1547,6 +1756,9 @@ class C06(Prop):
              "fresh": [{"obj": f["obj"], "ineqcv": f["ineqcv"], "eqcv": f["eqcv"]} for f in obs["fresh"]]}
         if kind == "subset":
             r.update(k=p["k"], nobj=len(p["obj_wt"]), nineq=len(p.get("ineq", [])), neq=len(p.get("eq", [])), space=p["space"])
+            if p.get("labels"):
+                # candidate set with labels of another dtype: membership of the returned VALUES in the label set
+                r.update(labels=p["labels"], decn=obs.get("decn_raw"))
         else:
             r.update(k=len(p["lower"]), nobj=len(p["C"]), nineq=(1 if p.get("cap") is not None else 0) + len(p.get("ineq", [])), neq=0,
                      lower=p["lower"], upper=p["upper"])
@@ -1557,6 +1769,7 @@ class C06(Prop):
         """the observation can be sent to the Lean Spec (2-D arrays of finite numbers)"""
         try:
             return (all(isinstance(r, list) for r in obs["decn"]) and _finite(obs["decn"]) and _finite(obs["obj"])
+                    and ("decn_raw" not in obs or (obs["decn_raw"] is not None and _finite(obs["decn_raw"])))
                     and _finite(obs["ineqcv"]) and _finite(obs["eqcv"])
                     and all(isinstance(r, list) for r in obs["obj"] + obs["ineqcv"] + obs["eqcv"])
                     and all(_finite([f["obj"], f["ineqcv"], f["eqcv"]]) for f in obs["fresh"]))
@@ -1782,7 +1995,7 @@ class C06(Prop):
                 corr = corr and same_keys(ans[3], obs["init"]) and obs["singletons"] == [[e] for e in p["space"]]
         nontriv = n > k and obs["decn"] and sorted(obs["decn"][0]) != sorted(p["space"][:k])
         return {"corr": bool(corr), "spec": bool(spec), "nontrivial": bool(nontriv), "fail": fail,
-                "detail": f"{kind}: fail={fail} impl decn={obs['decn']} obj={obs['obj']} G={obs['ineqcv']} H={obs['eqcv']} "
+                "detail": f"{kind}: fail={fail} impl decn={obs['decn']}{(' returned values=' + str(obs.get('decn_raw')) + ' candidate labels=' + str(p.get('labels'))) if p.get('labels') else ''} obj={obs['obj']} G={obs['ineqcv']} H={obs['eqcv']} "
                           f"init={obs.get('init')} | spec={s} extra={s2} | model={ {a: mdl[a] for a in ('decn', 'obj', 'ineqcv', 'eqcv')} }"}
 
     def _judge_ga(self, case, obs, ans):
@@ -1859,7 +2072,8 @@ class C06(Prop):
             (algo in VECTOR or changed or obs.get("nsoln", 0) > 1 or sorted(obs["decn"][0]) != sorted(p["space"][:p["k"]]))
         return {"corr": not bad, "spec": bool(spec), "nontrivial": bool(nontriv), "fail": fail,
                 "detail": f"ga[{algo}] fail={fail} problem_untouched={obs['problem_untouched']} raised={obs['raised']} res_none={obs['res_none']} spec={s} "
-                          f"decn={str(obs.get('decn'))[:300]} obj={str(obs.get('obj'))[:200]} operator_mismatch={str(bad[:1])[:500]}"}
+                          f"decn={str(obs.get('decn'))[:300]}{(' returned values=' + str(obs.get('decn_raw'))[:300] + ' candidate labels=' + str(p.get('labels'))) if (algo not in VECTOR and p.get('labels')) else ''} "
+                          f"obj={str(obs.get('obj'))[:200]} operator_mismatch={str(bad[:1])[:500]}"}
 
     def _judge_history(self, case, obs, ans):
         """Spec on every Solution at the moment it is returned and again at the end of the history"""
@@ -1946,13 +2160,15 @@ class C06(Prop):
                     q = dict(p)
                     q["space"] = p["space"][:i] + p["space"][i + 1:]
                     q["lin"] = p["lin"][:i] + p["lin"][i + 1:]
+                    if p.get("labels"):
+                        q["labels"] = p["labels"][:i] + p["labels"][i + 1:]
                     if p.get("quad"):
                         q["quad"] = [r[:i] + r[i + 1:] for j, r in enumerate(p["quad"]) if j != i]
                     for key, f in (("ineq", "cost"), ("eq", "vec")):
                         if p.get(key):
                             q[key] = [dict(c, **{f: c[f][:i] + c[f][i + 1:]}) for c in p[key]]
                     yield dict(case, prob=q)
-            for key in ("quad", "posw", "ineq", "eq"):
+            for key in ("quad", "posw", "ineq", "eq", "labels"):
                 if p.get(key):
                     q = {a: b for a, b in p.items() if a not in (key, key + "_wt")}
                     yield dict(case, prob=q)
@@ -2300,7 +2516,36 @@ def _mutants():
         ("old_hillclimb_reports_start_score", method_mutant(OldHC, "optimize", "gbest_score = best_score\n", "pass\n")),
     ]
 
-    muts = muts4 + [
+    # ---- round 5 ------------------------------------------------------------------------------------------------
+    # (a) incomplete neighbourhood after a few moves: members exchanged out are never proposed again
+    RETIRE = [("        while True:\n", "        _retired = numpy.zeros(len(wrkss), dtype = bool)\n        while True:\n"),
+              ("for j in range(len(wrkss)):", "for j in (_j for _j in range(len(wrkss)) if not _retired[_j]):"),
+              ("            gbest_cv = best_cv\n", "            gbest_cv = best_cv\n            _retired[best_j] = True\n")]
+    NSGA3 = alg["NSGA3SubsetGeneticAlgorithm"].NSGA3SubsetGeneticAlgorithm
+
+    def cast_X(res):
+        res.X = numpy.asarray(res.X).astype(int)
+
+    def round_X(res):
+        X = numpy.asarray(res.X)
+        if numpy.issubdtype(X.dtype, numpy.floating):
+            res.X = numpy.round(X, 6)
+
+    muts5 = [
+        ("sorting_hillclimb_retires_exchanged_out_members", multi_mutant(SSD, "minimize", RETIRE)),
+        ("hillclimb_retires_exchanged_out_members", multi_mutant(SD, "minimize", RETIRE)),
+        ("old_hillclimb_retires_exchanged_out_members", multi_mutant(OldHC, "optimize", [
+            RETIRE[0], RETIRE[1], ("            gbest_wscore = best_wscore\n", "            gbest_wscore = best_wscore\n            _retired[best_j] = True\n")])),
+        # (b) candidate labels treated as integers
+        ("nsga3_solution_decn_cast_to_int", method_mutant(NSGA3, "minimize", "            soln_decn = res.X\n", "            soln_decn = res.X.astype(int)\n")),
+        ("solution_decn_cast_to_int", res_mutant(cast_X)),
+        ("solution_decn_rounded_6", res_mutant(round_X)),
+        ("sorting_decision_cast_to_int", method_mutant(Sort, "minimize", "soln_decn = numpy.stack([gbest_soln]),", "soln_decn = numpy.stack([gbest_soln]).astype(int),")),
+        ("hillclimb_start_cast_to_int", method_mutant(SD, "minimize", "gbest_soln = self.rng.choice(prob.decn_space, prob.ndecn, replace = False)",
+                                                      "gbest_soln = self.rng.choice(prob.decn_space, prob.ndecn, replace = False).astype(int)")),
+    ]
+
+    muts = muts5 + muts4 + [
         ("sorting_ix_shifted", method_mutant(Sort, "minimize", "gbest_ix = ix[0:ndecn,0]", "gbest_ix = ix[1:ndecn+1,0] if len(ix) > ndecn else ix[0:ndecn,0]")),
         ("sorting_descending", method_mutant(Sort, "minimize", "ix = obj.argsort(0)", "ix = (-obj).argsort(0)")),
         ("sorting_reports_stale_obj", method_mutant(Sort, "minimize", "soln_obj = numpy.stack([gbest_obj]),", "soln_obj = numpy.stack([obj[gbest_ix[0]]]),")),
